@@ -38,7 +38,7 @@ CONFIGS = [f"{t}{p}" for t in ("typing.direct", "typing.root", "typing.310") for
 
 def plan(tier, seed):
     shards = [{"item": {"kind": "matrix"}, "seed": seed, "n": 25 if tier == "quick" else 300},
-              {"item": {"kind": "features"}, "seed": seed, "n": 10}]
+              {"item": {"kind": "features"}, "seed": seed, "n": 10}, {"item": {"kind": "features", "apart": True}, "seed": seed, "n": 10}]
     for nm in corpus.extra_names():
         shards.append({"item": {"kind": "extra", "name": nm}, "seed": seed, "n": 10, "each_first": True})
         shards.append({"item": {"kind": "extra", "name": nm, "cmdline": "roots"}, "seed": seed, "n": 6, "each_first": False})
